@@ -125,6 +125,10 @@ def lastTrue : List Bool → Option Nat
 def inCircle (r cx cy : Rat) (p : Pt) : Bool :=
   decide (sq (p.1 - cx) + sq (p.2 - cy) ≤ sq r)
 
+/-- one of the half-plane tests of the VLT quadrants: `n·p > c` resp. `n·p < c` -/
+def inHalf (gt : Bool) (a b c : Rat) (p : Pt) : Bool :=
+  if gt then decide (a * p.1 + b * p.2 > c) else decide (a * p.1 + b * p.2 < c)
+
 /-- as the code has it: the grid is shifted by `+centre` (so the ellipse sits at `−centre`);
 `cM = cos φ / a`, `sM = sin φ / a`, `cm = cos φ / b`, `sm = sin φ / b` -/
 def inEllipse (cM sM cm sm cx cy : Rat) (p : Pt) : Bool :=
@@ -181,7 +185,13 @@ def inSpiderInf (px py c s hw : Rat) (p : Pt) : Bool :=
 /-! ## shapes -/
 
 inductive Shape where
+  /-- `make_circular_aperture(2r, center)` with a centre given (also `[0, 0]`) -/
   | circle (r cx cy : Rat)
+  /-- `make_circular_aperture(2r)` with `center=None`: the maker that takes the `r ≤ R` shortcut on
+  polar grids -/
+  | disk (r : Rat)
+  /-- `(n·p > c) * 1.0` resp. `(n·p < c) * 1.0` (the quadrant tests of `make_vlt_aperture`) -/
+  | halfplane (gt : Bool) (a b c : Rat)
   /-- `mn` = smaller semi-axis, used only by `near` -/
   | ellipse (cM sM cm sm cx cy mn : Rat)
   | rect (hx hy cx cy : Rat)
@@ -210,6 +220,8 @@ def segFold (f : Pt → Rat) (p : Pt) (segs : List (Pt × Rat)) (init : Rat) : R
 /-- **the value of a shape at a physical point** -/
 def val : Shape → Pt → Rat
   | .circle r cx cy, p => b2r (inCircle r cx cy p)
+  | .disk r, p => b2r (inCircle r 0 0 p)
+  | .halfplane gt a b c, p => b2r (inHalf gt a b c p)
   | .ellipse cM sM cm sm cx cy _, p => b2r (inEllipse cM sM cm sm cx cy p)
   | .rect hx hy cx cy, p => b2r (inRect hx hy cx cy p)
   | .regpoly even r a dirs cx cy, p => b2r (inRegpoly even r a dirs cx cy p)
@@ -328,6 +340,12 @@ def circleFast (r cx cy : Rat) (xs ys : List Rat) : List Rat :=
     (Arr.zip (· + ·) (Arr.map (fun x => sq (x - cx)) (Arr.row xs))
                      (Arr.map (fun y => sq (y - cy)) (Arr.col ys)))).ravel).map b2r
 
+/-- `((n[0] * x + n[1] * y) > c) * 1.0` with `x = x[newaxis, :]`, `y = y[:, newaxis]` -/
+def halfFast (gt : Bool) (a b c : Rat) (xs ys : List Rat) : List Rat :=
+  ((Arr.map (fun v => if gt then decide (v > c) else decide (v < c))
+    (Arr.zip (· + ·) (Arr.map (fun x => a * x) (Arr.row xs))
+                     (Arr.map (fun y => b * y) (Arr.col ys)))).ravel).map b2r
+
 def rectFast (hx hy cx cy : Rat) (xs ys : List Rat) : List Rat :=
   ((Arr.zip (fun a b => a && b)
     (Arr.map (fun x => decide (rabs (x - cx) ≤ hx)) (Arr.row xs))
@@ -374,6 +392,8 @@ def segFastArr (even : Bool) (r a : Rat) (dirs : List (Rat × Rat)) (cx cy : Rat
 
 def evalSep : Shape → List Rat → List Rat → List Rat
   | .circle r cx cy, xs, ys => circleFast r cx cy xs ys
+  | .disk r, xs, ys => circleFast r 0 0 xs ys
+  | .halfplane gt a b c, xs, ys => halfFast gt a b c xs ys
   | .ellipse cM sM cm sm cx cy _, xs, ys => ellipseFast cM sM cm sm cx cy xs ys
   | .rect hx hy cx cy, xs, ys => rectFast hx hy cx cy xs ys
   | .regpoly even r a dirs cx cy, xs, ys => regpolyFast even r a dirs cx cy xs ys
@@ -396,6 +416,44 @@ def evalSep : Shape → List Rat → List Rat → List Rat
     segs.foldl (fun res s =>
       setMask ((evalSep a (xs.map (· - s.1.1)) (ys.map (· - s.1.2))).map fun v => decide (v > 1/2)) res s.2)
       ((sepPoints xs ys).map fun _ => 0)
+
+/-! ## the code path on polar grids -/
+
+/-- a point of a polar grid: radius and the direction cosines `(cos θ, sin θ)` of its angle -/
+abbrev PPt := Rat × Rat × Rat
+
+/-- `_polar_to_cartesian`: `x = r cos θ`, `y = r sin θ` -/
+def toCart (q : PPt) : Pt := (q.1 * q.2.1, q.1 * q.2.2)
+
+/-- `PolarGrid.rotate(−angle)` adds to θ: with `c = cos(−angle)`, `s = sin(−angle)` the new
+direction is `(c cos θ − s sin θ, s cos θ + c sin θ)`; the radius is untouched -/
+def rotDir (c s : Rat) (q : PPt) : PPt := (q.1, c * q.2.1 - s * q.2.2, s * q.2.1 + c * q.2.2)
+
+/-- **the code path on a polar grid**: `make_circular_aperture` without a centre compares the stored
+radius (`grid.as_('polar').r <= diameter / 2`); `make_rotated_aperture` keeps the grid polar
+(`PolarGrid.rotate`); obstruction/products/differences evaluate their operands on the same polar
+grid; every other maker converts with `as_('cartesian')` (an unstructured grid) first — also
+`make_shifted_aperture` and `make_segmented_aperture`, because `PolarGrid.shifted` returns a
+Cartesian grid. -/
+def evalPolar : Shape → List PPt → List Rat
+  | .disk R, qs => qs.map fun q => b2r (decide (q.1 ≤ R))
+  | .compl a, qs => (evalPolar a qs).map fun v => 1 - v
+  | .mul a b, qs => List.zipWith (· * ·) (evalPolar a qs) (evalPolar b qs)
+  | .sub a b, qs => List.zipWith (· - ·) (evalPolar a qs) (evalPolar b qs)
+  | .rot c s a, qs => evalPolar a (qs.map (rotDir c s))
+  | s, qs => evalPts s (qs.map toCart)
+
+/-- at the polar point `q` every radius shortcut of `s` (at the rotated point) gives what the
+Cartesian test gives at `toCart q`.  True for exact unit direction vectors and radii ≥ 0; for the
+floats `cos θ`, `sin θ` it can fail within one rounding error of a rim.  Run by the driver for every
+polar request. -/
+def diskAgree : Shape → PPt → Bool
+  | .disk R, q => decide (q.1 ≤ R) == inCircle R 0 0 (toCart q)
+  | .compl a, q => diskAgree a q
+  | .mul a b, q => diskAgree a q && diskAgree b q
+  | .sub a b, q => diskAgree a q && diskAgree b q
+  | .rot c s a, q => diskAgree a (rotDir c s q)
+  | _, _ => true
 
 /-! ## supersampling (`evaluate_supersampled`, separated grids, statistic 'mean') -/
 
@@ -428,9 +486,88 @@ def ditherGrids (nx ny : Nat) (xs ys : List Rat) : Option (List (List Rat × Lis
       (List.zipWith (fun c d => c + ex * d) xs dx, List.zipWith (fun c d => c + ey * d) ys dy))
   | _, _ => none
 
-def supersampled (s : Shape) (nx ny : Nat) (xs ys : List Rat) : Option (List Rat) :=
-  (ditherGrids nx ny xs ys).map fun gs =>
-    meanFields (xs.length * ys.length) (gs.map fun g => evalSep s g.1 g.2)
+/-- the two ways `evaluate_supersampled` fails on a separated grid -/
+inductive SuperErr where
+  /-- an axis with fewer than two points: `x[1] - x[0]` raises IndexError -/
+  | index
+  /-- an oversampling factor that rounds to 0, statistic 'mean': `make_uniform_grid` has no points, the
+  loop does not run and `field / len(dithers)` is `0 / 0` on Python ints: ZeroDivisionError -/
+  | zeroDiv
+  /-- an oversampling factor that rounds to 0, statistics 'sum' / 'min' / 'max': the loop does not
+  run and `field.grid = grid` is applied to the initial `0` resp. `None`: AttributeError -/
+  | attribute
+  /-- an empty list of generators: `ModeBasis([], grid)` raises ValueError (`np.stack` of nothing) -/
+  | value
+  deriving DecidableEq, Repr
+
+/-- `evaluate_supersampled(gen, grid, (nx, ny))` on a separated grid, statistic 'mean'.  The spacings
+are computed first (IndexError), then the dither grid (ZeroDivisionError for a factor 0); only then
+is the generator evaluated. -/
+def supersampled (s : Shape) (nx ny : Nat) (xs ys : List Rat) : Except SuperErr (List Rat) :=
+  match ditherGrids nx ny xs ys with
+  | none => .error .index
+  | some gs =>
+    if nx = 0 ∨ ny = 0 then .error .zeroDiv
+    else .ok (meanFields (xs.length * ys.length) (gs.map fun g => evalSep s g.1 g.2))
+
+/-! ### the other statistics of `evaluate_supersampled` on a separated grid: 'sum', 'min', 'max' -/
+
+/-- the `statistic` argument (the dithered path implements these four) -/
+inductive Stat where
+  | mean | sum | min | max
+  deriving DecidableEq, Repr
+
+/-- `np.minimum(field, gen(dithered grid))` -/
+def minFields (a b : List Rat) : List Rat := List.zipWith (fun u v => if u ≤ v then u else v) a b
+
+/-- `np.maximum(field, gen(dithered grid))` -/
+def maxFields (a b : List Rat) : List Rat := List.zipWith (fun u v => if u ≤ v then v else u) a b
+
+/-- `field = 0; for dither: field += gen(dithered grid)` -/
+def sumFields (n : Nat) (fs : List (List Rat)) : List Rat := fs.foldl addFields (List.replicate n 0)
+
+/-- the loop over the dithered grids: 'mean'/'sum' start from 0 and add, 'min'/'max' start from the
+first field (`field = None`) and fold `np.minimum` / `np.maximum`; only 'mean' divides at the end -/
+def combineFields (st : Stat) (n : Nat) (fs : List (List Rat)) : List Rat :=
+  match st, fs with
+  | .mean, fs => meanFields n fs
+  | .sum, fs => sumFields n fs
+  | .min, [] => []
+  | .min, f :: r => r.foldl minFields f
+  | .max, [] => []
+  | .max, f :: r => r.foldl maxFields f
+
+/-- `evaluate_supersampled(gen, grid, (nx, ny), statistic=st)` on a separated grid.  A one-point axis
+fails in the spacings for every statistic (IndexError); a factor 0 leaves the loop over the dithers
+empty and fails afterwards — in the division for 'mean', in `field.grid = grid` for the others. -/
+def supersampledStat (st : Stat) (s : Shape) (nx ny : Nat) (xs ys : List Rat) :
+    Except SuperErr (List Rat) :=
+  match ditherGrids nx ny xs ys with
+  | none => .error .index
+  | some gs =>
+    if nx = 0 ∨ ny = 0 then .error (if st = .mean then .zeroDiv else .attribute)
+    else .ok (combineFields st (xs.length * ys.length) (gs.map fun g => evalSep s g.1 g.2))
+
+/-! ### a list of generators (`evaluate_supersampled([gen, …], grid, …)` → ModeBasis) -/
+
+/-- `for fg in field_generator: modes.append(evaluate_supersampled(fg, …))`: the first failure ends
+the loop -/
+def supersampledListAux (st : Stat) (nx ny : Nat) (xs ys : List Rat) :
+    List Shape → Except SuperErr (List (List Rat))
+  | [] => .ok []
+  | s :: rest =>
+    match supersampledStat st s nx ny xs ys with
+    | .error e => .error e
+    | .ok f =>
+      match supersampledListAux st nx ny xs ys rest with
+      | .error e => .error e
+      | .ok fs => .ok (f :: fs)
+
+/-- … followed by `ModeBasis(modes, grid)`, which rejects an empty list -/
+def supersampledList (st : Stat) (nx ny : Nat) (xs ys : List Rat) :
+    List Shape → Except SuperErr (List (List Rat))
+  | [] => .error .value
+  | s :: rest => supersampledListAux st nx ny xs ys (s :: rest)
 
 /-! ## distance-to-a-decision flags (used only to skip near-boundary points in the tie) -/
 
@@ -448,6 +585,8 @@ def nearSeg (tol : Rat) (p v w : Pt) : Bool :=
 
 def near (tol : Rat) : Shape → Pt → Bool
   | .circle r cx cy, p => nearSq tol r (sq (p.1 - cx) + sq (p.2 - cy))
+  | .disk r, p => nearSq tol r (sq p.1 + sq p.2)
+  | .halfplane _ a b c, p => nearLin (tol * (rabs a + rabs b)) c (a * p.1 + b * p.2)
   | .ellipse cM sM cm sm cx cy mn, p =>
     let t := sq ((p.1 + cx) * cM - (p.2 + cy) * sM) + sq ((p.1 + cx) * sm + (p.2 + cy) * cm)
     nearSq (if mn = 0 then tol else tol / mn) 1 t
@@ -508,9 +647,62 @@ segment (circum-radius, inflated apothem, side directions), `trs` the 37 transmi
 def keckShape (rings : Nat) (pitch ap segR segA : Rat) (dirs : List (Rat × Rat)) (trs : List Rat)
     (obsR : Rat) (spiders : List (Rat × Rat)) (hw : Rat) : Shape :=
   let body := Shape.mul (.seg ((hexPositions rings pitch ap).zip trs) (.regpoly true segR segA dirs 0 0))
-    (.compl (.circle obsR 0 0))
+    (.compl (.disk obsR))
   match spiders with
   | [] => body
   | s0 :: rest => .mul body (spiderProd hw s0 rest)
+
+/-! ## a non-hexagonal telescope pupil end to end: the VLT pupil (`make_vlt_aperture`) -/
+
+/-- a spider as `make_spider` sees it: `(sx, sy, cos, sin, half length, half width)` -/
+abbrev SpiderC := Rat × Rat × Rat × Rat × Rat × Rat
+
+/-- `obstructed(grid) * spider1(grid) * … [* m3_cover(grid)]` with
+`obstructed = (circular(D) − circular(D·ratio)) * 1` (no spiders of its own) and
+`m3_cover = 1 − rectangular(…)` -/
+def vltShape (ro ri : Rat) (spiders : List SpiderC) (m3 : Option (Rat × Rat × Rat × Rat)) : Shape :=
+  let body := Shape.mul (.sub (.disk ro) (.disk ri)) (.const 1)
+  let sp := spiders.foldl (fun acc (q : SpiderC) =>
+    Shape.mul acc (.spider q.1 q.2.1 q.2.2.1 q.2.2.2.1 q.2.2.2.2.1 q.2.2.2.2.2)) body
+  match m3 with
+  | none => sp
+  | some (hx, hy, cx, cy) => .mul sp (.compl (.rect hx hy cx cy))
+
+/-- the line through a spider: `n = (end.y − start.y, start.x − end.x)`, `c = n · end` -/
+def spiderLine (st en : Pt) : (Rat × Rat) × Rat :=
+  let n := (en.2 - st.2, st.1 - en.1)
+  (n, n.1 * en.1 + n.2 * en.2)
+
+/-- `np.array([c1, c2]).dot(np.linalg.inv(np.array([n1, n2])))`, then `ni = (−v[1], −v[0])`;
+`none` when the matrix is singular (LinAlgError) -/
+def vltThird (n1 : Rat × Rat) (c1 : Rat) (n2 : Rat × Rat) (c2 : Rat) : Option (Rat × Rat) :=
+  let det := n1.1 * n2.2 - n1.2 * n2.1
+  if det = 0 then none else
+    let v0 := (c1 * n2.2 - c2 * n2.1) / det
+    let v1 := (c2 * n1.1 - c1 * n1.2) / det
+    some (-v1, -v0)
+
+/-- quadrant `i` of `make_vlt_aperture(return_segments=True)`: `lines` are the spider lines in the
+order the code lists them (`[1, 4, 3, 2]`); the quadrant uses `lines[i]` and `lines[i+1]` (cyclic),
+`f = (n1·p > c1) * (n2·p < c2) * (ni·p < 0)`, then `f *= func(grid)` and, with the M3 cover,
+`f *= m3_cover(grid)` once more -/
+def vltSegment (i : Nat) (lines : List ((Rat × Rat) × Rat)) (pupil : Shape)
+    (m3 : Option (Rat × Rat × Rat × Rat)) : Option Shape :=
+  match lines[i % lines.length]?, lines[(i + 1) % lines.length]? with
+  | some (n1, c1), some (n2, c2) =>
+    (vltThird n1 c1 n2 c2).map fun ni =>
+      let f := Shape.mul (.mul (.mul (.halfplane true n1.1 n1.2 c1) (.halfplane false n2.1 n2.2 c2))
+        (.halfplane false ni.1 ni.2 0)) pupil
+      match m3 with
+      | none => f
+      | some (hx, hy, cx, cy) => .mul f (.compl (.rect hx hy cx cy))
+  | _, _ => none
+
+/-- the spider lines in the code's order `ns = [n1, n4, n3, n2]` from the start/end points of
+spiders 1…4 -/
+def vltLines (se : List (Pt × Pt)) : List ((Rat × Rat) × Rat) :=
+  match se with
+  | [s1, s2, s3, s4] => [spiderLine s1.1 s1.2, spiderLine s4.1 s4.2, spiderLine s3.1 s3.2, spiderLine s2.1 s2.2]
+  | _ => []
 
 end HcipyVerif.Aperture
